@@ -21,6 +21,17 @@ package ledgerstore
 // one switch that decides whether event records are persisted at all).  The
 // fixture, the twins and the subjects of a configuration are all built and
 // run under that configuration.
+//
+// A third world varies the HISTORY of the ledger instead of the node
+// configuration ("gas-price-change"): the last block the node committed before
+// the pre-executions is an operator block of the global-param contract
+// (setGlobalParam + createSnapshot) that raises NeoVM gas prices.  Those prices
+// come into force with the next block, so the pre-executions fall into the one
+// window in which the prices the process holds and the prices the next block
+// must charge differ; the follow-up block holds transfers whose outcome (out of
+// gas or not, fee charged) depends on the changed price.  Every subject of that
+// world commits the operator block itself, in the process, right before the
+// calls - exactly the state of a running node.
 
 import (
 	"bytes"
@@ -41,7 +52,9 @@ import (
 	"github.com/ontio/ontology/common/config"
 	"github.com/ontio/ontology/core/payload"
 	"github.com/ontio/ontology/core/types"
+	cutils "github.com/ontio/ontology/core/utils"
 	"github.com/ontio/ontology/smartcontract/event"
+	"github.com/ontio/ontology/smartcontract/service/native/global_params"
 	nutils "github.com/ontio/ontology/smartcontract/service/native/utils"
 	"github.com/ontio/ontology/smartcontract/service/neovm"
 	evm2 "github.com/ontio/ontology/vm/evm"
@@ -212,9 +225,18 @@ func c42ontAddr(a ethcom.Address) common.Address {
 type c42mode struct {
 	name     string // "" = the default configuration
 	eventLog bool   // config.DefConfig.Common.EnableEventLog (command line: --disable-event-log)
+	// gasChange: not a node configuration but a ledger history - the last block committed before the pre-executions
+	// is an operator block that changes NeoVM gas prices on chain (in force from the next block on)
+	gasChange bool
 }
 
-var c42modes = []*c42mode{{"", true}, {"no-event-log", false}}
+var c42modes = []*c42mode{{"", true, false}, {"no-event-log", false, false}, {"gas-price-change", true, true}}
+
+// the prices the operator block of the gas-price-change world prepares and snapshots
+const (
+	c42newNativeInvoke = 100000 // Ontology.Native.Invoke (1000 at genesis)
+	c42newStoragePut   = 9000   // System.Storage.Put (4000 at genesis)
+)
 
 func (m *c42mode) apply() { config.DefConfig.Common.EnableEventLog = m.eventLog }
 
@@ -332,6 +354,11 @@ type c42fix struct {
 	committedNeo         *types.Transaction
 	committedEvm         *types.Transaction
 	fixedFollow          []*types.Transaction
+	// gas-price-change world: the operator block every ledger of the world commits in the process when it is opened,
+	// and the price-sensitive transactions of the follow-up block (also part of fixedFollow)
+	last                 *types.Block
+	opTxs                []*types.Transaction
+	outOfGas, dearer     *types.Transaction
 	mnewCode             []byte
 	setupStates          map[string]byte
 }
@@ -444,6 +471,17 @@ func c42build(mode *c42mode, logf func(string, ...interface{})) *c42fix {
 	}
 	logf("setup[%s]: ong(e0)=%v ong(e1)=%v ong(a0)=%v", mode.tag(), l.Ong(c42ontAddr(e0)), l.Ong(c42ontAddr(e1)), l.Ong(a0.Address))
 	f.h = l.ls.GetCurrentBlockHeight()
+	if mode.gasChange {
+		// the operator (the bookkeeper of the solo genesis) prepares new prices and makes them effective in one block
+		set := vNativeTx(nutils.ParamContractAddress, global_params.SET_GLOBAL_PARAM_NAME, []interface{}{global_params.Params{
+			{Key: neovm.NATIVE_INVOKE_NAME, Value: fmt.Sprint(c42newNativeInvoke)},
+			{Key: neovm.STORAGE_PUT_NAME, Value: fmt.Sprint(c42newStoragePut)}}}, 0, 10000000, 90)
+		snap := cutils.BuildNativeTransaction(nutils.ParamContractAddress, global_params.CREATE_SNAPSHOT_NAME, []byte{0})
+		snap.Nonce, snap.GasLimit = 91, 10000000
+		f.opTxs = []*types.Transaction{vSignTx(set, a0), vSignTx(snap, a0)}
+		f.last = l.MakeBlock(f.opTxs)
+		f.h++
+	}
 	l.Close()
 	f.fixedFollow = []*types.Transaction{
 		vTransferTx(nutils.OntContractAddress, a0, a1.Address, 5, 2500, 20000, 100),
@@ -451,6 +489,31 @@ func c42build(mode *c42mode, logf func(string, ...interface{})) *c42fix {
 		c42evmTx(1, 0, &f.evmC, 0, nil),
 		// probe: APPCALL of the never-deployed ghost contract (fails: the contract does not exist)
 		vSignTx(vNeoTx(append([]byte{0x67}, c42ghostAddr()...), 0, 60000000, 102), a0),
+	}
+	if mode.gasChange {
+		// gas limit between the cost under the old and under the new price of Ontology.Native.Invoke: must run out of gas
+		f.outOfGas = vTransferTx(nutils.OntContractAddress, a0, a1.Address, 1, 2500, 30000, 103)
+		// gas limit above both: succeeds, the fee differs
+		f.dearer = vTransferTx(nutils.OntContractAddress, a0, a1.Address, 2, 2500, 300000, 104)
+		f.fixedFollow = append(f.fixedFollow, f.outOfGas, f.dearer)
+		// non-vacuity of the history: the operator block commits, both transactions succeed, and - the window the
+		// world exists for - the prices the process holds afterwards are still the old ones
+		v := f.open()
+		for i, tx := range f.opTxs {
+			n, err := v.ls.GetEventNotifyByTx(tx.Hash())
+			c42must(err, fmt.Sprintf("operator tx %d event", i))
+			if n.State != event.CONTRACT_STATE_SUCCESS {
+				panic(fmt.Sprintf("c42 fixture[%s]: operator transaction %d failed", mode.tag(), i))
+			}
+		}
+		if v.ls.GetCurrentBlockHeight() != f.h {
+			panic(fmt.Sprintf("c42 fixture[%s]: height %d after the operator block, expected %d", mode.tag(), v.ls.GetCurrentBlockHeight(), f.h))
+		}
+		if p, _ := neovm.GAS_TABLE.Load(neovm.NATIVE_INVOKE_NAME); p == nil || p.(uint64) != neovm.NATIVE_INVOKE_GAS {
+			panic(fmt.Sprintf("c42 fixture[%s]: the process holds the price %v for %s right after the operator block, expected the old price %d",
+				mode.tag(), p, neovm.NATIVE_INVOKE_NAME, neovm.NATIVE_INVOKE_GAS))
+		}
+		c42drop(v)
 	}
 	return f
 }
@@ -460,7 +523,13 @@ func (f *c42fix) open() *vLedger {
 	d := c42tmp("s")
 	os.RemoveAll(d)
 	c42copyDir(f.tmpl, d)
-	return vMustSolo(d)
+	l := vMustSolo(d)
+	if f.last != nil {
+		// the node commits the operator block itself: process-wide state (neovm.GAS_TABLE: refreshed from the chain at
+		// the start of every block) is what a running node holds between this block and the next
+		c42must(l.AddBlock(c42cloneBlock(f.last)), "operator block ("+f.mode.tag()+")")
+	}
+	return l
 }
 
 func c42drop(l *vLedger) {
@@ -848,13 +917,36 @@ func c42makeTwin(f *c42fix, it *c42item) *c42twin {
 			if n.State == event.CONTRACT_STATE_SUCCESS {
 				bad = "reverting call succeeded"
 			}
-		case "ont-transfer", "ong-transfer", "ont-approve", "neovm-storage-put", "neovm-storage-delete", "deploy-new", "evm-transfer":
+		case "ont-transfer", "ong-transfer", "ont-approve":
+			if f.mode.gasChange {
+				// (gas limit 20000 < the raised price of a native invoke)
+				if n.State == event.CONTRACT_STATE_SUCCESS {
+					bad = "succeeds when committed although the raised price of a native invoke exceeds its gas limit"
+				}
+			} else if n.State != event.CONTRACT_STATE_SUCCESS {
+				bad = "fails when committed"
+			}
+		case "neovm-storage-put", "neovm-storage-delete", "deploy-new", "evm-transfer":
 			if n.State != event.CONTRACT_STATE_SUCCESS {
 				bad = "fails when committed"
 			}
 		}
 		if bad != "" {
 			panic("c42 fixture: item " + it.name + " committed in a block: " + bad)
+		}
+	}
+	if f.mode.gasChange {
+		// non-vacuity of the world: the follow-up block really ran under the raised prices
+		n1, err := l.ls.GetEventNotifyByTx(f.outOfGas.Hash())
+		c42must(err, "twin event of the transfer with gas limit 30000")
+		n2, err := l.ls.GetEventNotifyByTx(f.dearer.Hash())
+		c42must(err, "twin event of the transfer with gas limit 300000")
+		if n1.State == event.CONTRACT_STATE_SUCCESS || n2.State != event.CONTRACT_STATE_SUCCESS || n2.GasConsumed < c42newNativeInvoke*2500 {
+			panic(fmt.Sprintf("c42 fixture[%s]: the follow-up block did not run under the raised prices: transfer(limit 30000) state %d, transfer(limit 300000) state %d gas %d",
+				f.mode.tag(), n1.State, n2.State, n2.GasConsumed))
+		}
+		if p, _ := neovm.GAS_TABLE.Load(neovm.NATIVE_INVOKE_NAME); p == nil || p.(uint64) != c42newNativeInvoke {
+			panic(fmt.Sprintf("c42 fixture[%s]: price of %s after the follow-up block: %v", f.mode.tag(), neovm.NATIVE_INVOKE_NAME, p))
 		}
 	}
 	return &c42twin{block: b, dump: l.Dump(), root: root}
@@ -900,8 +992,8 @@ func (w *c42world) find(tx, entry string) (*c42item, *c42entry) {
 func TestVerif_C42(t *testing.T) {
 	r := vh.Start(t, "C42", "preexec")
 	defer r.Finish()
-	r.Rule("cases = node configuration {default, event log disabled} x transaction of the menu {native transfer/approve (valid, foreign witness), NeoVM invoke that writes / deletes storage / destroys / migrates / faults / creates a contract and calls it (every follow-up block probes that never-deployed contract), deploy (new, existing), EIP-155 transfer / create / SSTORE+LOG call / reverting call / wrong nonce, already committed NeoVM and EVM transactions} x read-only entry point x issued 1..3 times in a row on one ledger; evaluations = pre-execution calls, each followed by the full comparison (stores, queries, gas table, process-wide configuration); outcome class = [configuration/] tx kind : entry point : result")
-	r.Bound("2 node configurations (EnableEventLog true/false; fixture, twins and subjects built and run under the configuration); ledger of 3 blocks (3 NeoVM contracts and 1 EVM contract with storage, funded native and EVM accounts); 18 transactions; 10 entry-point forms (6 general, 4 EIP-155 only); repetitions 1..3; then {no restart, restart} (quick tier: alternating, thorough: both) and one follow-up block per case compared with a twin ledger; plus per configuration one ledger that sees every call of the run in sequence; thorough tier additionally every ordered pair (a,b) of menu transactions: a, b, then the batch [a,b] on one ledger")
+	r.Rule("cases = world {default, event log disabled, ledger whose last committed block changed NeoVM gas prices on chain (in force from the next block)} x transaction of the menu {native transfer/approve (valid, foreign witness), NeoVM invoke that writes / deletes storage / destroys / migrates / faults / creates a contract and calls it (every follow-up block probes that never-deployed contract), deploy (new, existing), EIP-155 transfer / create / SSTORE+LOG call / reverting call / wrong nonce, already committed NeoVM and EVM transactions} x read-only entry point x issued 1..3 times in a row on one ledger; evaluations = pre-execution calls, each followed by the full comparison (stores, queries, gas table, process-wide configuration); outcome class = [world/] tx kind : entry point : result")
+	r.Bound("3 worlds: 2 node configurations (EnableEventLog true/false; fixture, twins and subjects built and run under the configuration) + 1 ledger history (gas-price-change: every ledger commits, in the process and right before the calls, an operator block setGlobalParam+createSnapshot raising Ontology.Native.Invoke 1000->100000 and System.Storage.Put 4000->9000; its follow-up block additionally holds an ONT transfer with gas limit 30000 that must run out of gas and one with gas limit 300000 that must pay the raised price; quick tier: no-restart variant only); ledger of 3 blocks (3 NeoVM contracts and 1 EVM contract with storage, funded native and EVM accounts); 18 transactions; 10 entry-point forms (6 general, 4 EIP-155 only); repetitions 1..3; then {no restart, restart} (quick tier: alternating, thorough: both) and one follow-up block per case compared with a twin ledger; plus per configuration one ledger that sees every call of the run in sequence; thorough tier additionally every ordered pair (a,b) of menu transactions: a, b, then the batch [a,b] on one ledger")
 	r.Assume("block time / context passed by the RPC layer is irrelevant to persistence; WASM contracts are outside the menu (the JIT is a stub); of the node configuration only the event-log switch is varied")
 
 	var rc c42case
@@ -918,8 +1010,12 @@ func TestVerif_C42(t *testing.T) {
 	// all fixtures and all twins of all configurations are committed BEFORE the first pre-execution of this
 	// process: whatever a pre-execution leaves behind in process-wide state (caches, tables, switches) must not
 	// be able to reach the reference ledgers
+	// (built in reverse order: the twins of the gas-price-change world leave the raised prices in neovm.GAS_TABLE; the
+	// blocks of the worlds built after it load the genesis prices of their own chains again, so the default worlds
+	// start under the same process state as before that world existed)
 	var worlds []*c42world
-	for _, mode := range c42modes {
+	for mi := len(c42modes) - 1; mi >= 0; mi-- {
+		mode := c42modes[mi]
 		if replay && rc.Config != mode.name {
 			continue
 		}
@@ -933,7 +1029,13 @@ func TestVerif_C42(t *testing.T) {
 		for _, it := range w.menu {
 			w.twinOf(it)
 		}
-		worlds = append(worlds, w)
+		worlds = append([]*c42world{w}, worlds...)
+		if mode.gasChange {
+			// (established by the panicking fixture checks of c42build / c42makeTwin)
+			r.Class(mode.name + "/history:operator-block-committed,process-still-holds-old-prices")
+			r.Class(mode.name + "/follow-up-block:transfer-with-gas-limit-30000-runs-out-of-gas-under-the-raised-price")
+			r.Class(mode.name + "/follow-up-block:transfer-with-gas-limit-300000-pays-the-raised-price")
+		}
 	}
 	r.Need(len(worlds) > 0, "replay: unknown node configuration %q", rc.Config)
 
@@ -950,6 +1052,9 @@ func TestVerif_C42(t *testing.T) {
 		r.NeedClass("no-event-log/neovm:PreExecuteContract:error")
 		r.NeedClass("no-event-log/native:PreExecuteContract:error")
 		r.NeedClass("no-event-log/evm:PreExecuteEip155Tx:success")
+		r.NeedClass("gas-price-change/native:PreExecuteContract:success")
+		r.NeedClass("gas-price-change/neovm:PreExecuteContractWithParam(wasmFactor):success")
+		r.NeedClass("gas-price-change/deploy:PreExecuteContractBatch(atomic):success")
 	}
 	r.Need(replay || r.R.Evaluations > 0 || r.R.CapHit, "no case evaluated")
 }
@@ -963,6 +1068,10 @@ func c42runWorld(r *vh.Run, w *c42world, replay bool, rcp *c42case, idxp *int, s
 	cprefix := "" // outcome-class prefix
 	if mode.name != "" {
 		cprefix = mode.name + "/"
+	}
+	hsuffix := "" // violation-key suffix of the follow-up differential: the history class of the ledger
+	if mode.gasChange {
+		hsuffix = "(after-gas-price-change-block)"
 	}
 
 	// observe compares the ledger with its state before the call
@@ -1048,8 +1157,13 @@ func c42runWorld(r *vh.Run, w *c42world, replay bool, rcp *c42case, idxp *int, s
 			*idxp++
 			idx := *idxp
 			for _, restart := range []bool{false, true} {
-				if r.Quick() && restart != (idx%2 == 0) {
+				if r.Quick() && !mode.gasChange && restart != (idx%2 == 0) {
 					continue // quick tier: one of the two variants per case, alternating
+				}
+				if r.Quick() && mode.gasChange && restart && !(replay && rc.Restart) {
+					// quick tier, gas-price-change world: what this world adds is state held by the running process
+					// between two blocks; the restart variant runs in the thorough tier only
+					continue
 				}
 				cs := c42case{Config: mode.name, Tx: it.name, Entry: en.name, Reps: 3, Restart: restart}
 				if replay {
@@ -1105,9 +1219,9 @@ func c42runWorld(r *vh.Run, w *c42world, replay bool, rcp *c42case, idxp *int, s
 					err := l.AddBlock(c42cloneBlock(tw.block))
 					root, rerr := l.ls.GetStateMerkleRoot(tw.block.Header.Height)
 					if err != nil || rerr != nil || root != tw.root {
-						r.Violationf(c42key(it, en)+":later-block-differs", cs, "%v: block committed after the pre-executions: err=%v state root %s, twin %s", cs, err, root.ToHexString(), tw.root.ToHexString())
+						r.Violationf(c42key(it, en)+":later-block-differs"+hsuffix, cs, "%v: block committed after the pre-executions: err=%v state root %s, twin %s%s", cs, err, root.ToHexString(), tw.root.ToHexString(), c42followStates(l, f))
 					} else if d := vDiff(l.Dump(), tw.dump); len(d) != 0 {
-						r.Violationf(c42key(it, en)+":later-block-differs", cs, "%v: after a block committed afterwards the stores differ from a ledger without pre-executions:%s", cs, vHexKeys(d))
+						r.Violationf(c42key(it, en)+":later-block-differs"+hsuffix, cs, "%v: after a block committed afterwards the stores differ from a ledger without pre-executions:%s%s", cs, vHexKeys(d), c42followStates(l, f))
 					}
 				}
 				c42drop(l)
@@ -1182,7 +1296,7 @@ func c42runWorld(r *vh.Run, w *c42world, replay bool, rcp *c42case, idxp *int, s
 					tw := twinOf(a)
 					err := l.AddBlock(c42cloneBlock(tw.block))
 					if d := vDiff(l.Dump(), tw.dump); err != nil || len(d) != 0 {
-						r.Violationf(c42key(a, single)+":later-block-differs", cs, "%v: block committed after the pre-executions: err=%v, stores differ from the twin:%s", cs, err, vHexKeys(d))
+						r.Violationf(c42key(a, single)+":later-block-differs"+hsuffix, cs, "%v: block committed after the pre-executions: err=%v, stores differ from the twin:%s%s", cs, err, vHexKeys(d), c42followStates(l, f))
 					}
 				}
 				c42drop(l)
@@ -1206,6 +1320,24 @@ func c42runWorld(r *vh.Run, w *c42world, replay bool, rcp *c42case, idxp *int, s
 			r.Violationf(seq+":later-block-differs", c42case{Config: mode.name, History: history}, "block committed after all pre-executions: err=%v, stores differ from the twin:%s", err, vHexKeys(d))
 		}
 	}
+}
+
+// c42followStates (violation detail, gas-price-change world): how the price-sensitive transactions of the follow-up
+// block ended on the subject (on the twin: the first runs out of gas, the second pays the raised price)
+func c42followStates(l *vLedger, f *c42fix) string {
+	if !f.mode.gasChange {
+		return ""
+	}
+	s := "; price-sensitive follow-up transactions on this ledger:"
+	for i, tx := range []*types.Transaction{f.outOfGas, f.dearer} {
+		n, err := l.ls.GetEventNotifyByTx(tx.Hash())
+		if err != nil {
+			s += fmt.Sprintf(" [%d] no event record (%v)", i, err)
+		} else {
+			s += fmt.Sprintf(" [%d] gas limit %d: state %d, gas consumed %d", i, tx.GasLimit, n.State, n.GasConsumed)
+		}
+	}
+	return s + " (twin: [0] runs out of gas, [1] pays the raised price)"
 }
 
 // c42procKey: violation class of a changed process-wide configuration = the variable (path) that changed
